@@ -257,3 +257,71 @@ def open_flags_positional(crate):
             res.status = "inconclusive"; res.detail = "unmodelled OpenOptions flag(s) %s" % sorted(extra); break
         P.cover(ex, res, o, z3.BoolVal(True), "%s flags read" % which)
     return P.finish(ex, res, ["open flags read", "create flags read"] if res.status == "holds" else [])
+
+
+def h_std_read_exact_at(ex, st, frame, t, nf, args, dty):
+    """<std::fs::File as FileExt>::read_exact_at(file, &mut buf, offset): one event; arbitrary outcome; the error is a
+    tagged object so that its way to the caller can be followed."""
+    b = S.deref_val(ex, st, args[1])
+    ln = b.len.t if isinstance(b, VecV) else _buf(ex, st, args[1]).fields[("g", "len")].t
+    okv = z3.Bool(fresh_name("rd_ok"))
+    r = S.mk_enum(dty, "Ok", 0, [UNIT])
+    r.discr = Sym(z3.If(okv, BV64(0), BV64(1)), "isize")
+    e = Obj("std::io::Error"); e.fields[("g", "os_error")] = Sym(BV64(len(st.events) + 1), "u64")
+    r.fields[("Err", 0)] = e
+    st.events.append(("read", "read_exact_at", [args[2].t, ln, frame.body.name], r))
+    return [(r, None)]
+
+
+def read_exact_passes_through(crate):
+    """C06/C03/C16: File::read_exact_at / read_exact_at_allocate ask the OS exactly once for exactly [offset, offset+len)
+    and return its verdict unchanged: Ok with the buffer iff the read succeeded, otherwise the OS error itself.  (Callers
+    classify a short file by the kind of that error - UnexpectedEof becomes "corrupted / torn" - so the File layer must not
+    answer in its place, e.g. refuse a read past its own size counter with a different error.)"""
+    res = P.ObResult("read_exact_passes_through")
+    res.functions = ["File::read_exact_at (async body) + both closures", "File::read_exact_at_allocate (async body)"]
+    res.bounds = "one call each, arbitrary offset / length (< 2^40) / size counters, in-place or blocking-pool path, read may fail"
+    for which in ("read_exact_at", "read_exact_at_allocate"):
+        ex = P.mk_executor(crate, cap=2, loop_bound=4, inline=[r"^File::(size|read_exact_at)$"],
+                           extra_summaries=FILE_SUMMARIES + [(r"^<std::fs::File as (std::os::unix::fs::|std::os::unix::prelude::)?FileExt>::read_exact_at$", h_std_read_exact_at)])
+        ex.closure_runners = [re.compile(r"^File::(inplace_sync_call|background_sync_call)$")]
+        st = State()
+        f, size0, synced0 = file_obj(crate, st, "f")
+        fc = st.new_cell(f)
+        blen, off = z3.BitVec("len", 64), z3.BitVec("offset", 64)
+        st.pc.append(z3.ULT(blen, BV64(1 << 40)))
+        fn = crate.method("File", which)
+        if which == "read_exact_at":
+            args = [Ref(fc, (), False, "&io::unix::sync::File"), mk_buf(blen), Sym(off, "u64")]
+        else:
+            args = [Ref(fc, (), False, "&io::unix::sync::File"), Sym(blen, "usize"), Sym(off, "u64")]
+        outs = P.drive_async(ex, st, fn, args)
+        res.paths += len(outs)
+
+        def per_path(o, isok, payload):
+            reads = [e for e in o.events if e[0] == "read"]
+            if len(reads) != 1:
+                if ex.feasible(o, z3.BoolVal(True)):
+                    res.status = "violated"
+                    res.detail = "%s: %d reads issued for one request (the File layer answered itself: %s)" % (
+                        which, len(reads), "Ok" if not ex.feasible(o, z3.Not(isok)) else "Err")
+                    m = ex.model(o, z3.BoolVal(True)) if hasattr(ex, "model") else None
+                    return False
+                return True
+            r = reads[0]
+            o_, l_, _fr = r[2]
+            if not P.prove(ex, res, o, z3.And(o_ == off, l_ == blen), "%s: reads [offset, offset+len)" % which):
+                return False
+            if not P.prove(ex, res, o, isok == _ev_result_ok(ex, o, r), "%s: Ok iff the read succeeded" % which):
+                return False
+            errp = payload.fields.get(("Err", 0)) if isinstance(payload, Obj) else None
+            if ex.feasible(o, z3.Not(isok)):
+                if not (isinstance(errp, Obj) and ("g", "os_error") in errp.fields):
+                    res.status = "violated"; res.detail = "%s: the error returned is not the OS error of the read" % which; return False
+                P.cover(ex, res, o, z3.Not(isok), "%s: read failed" % which)
+            P.cover(ex, res, o, z3.And(isok, z3.UGT(off, size0)), "%s: read beyond the size counter passed to the OS" % which)
+            return True
+        if not _check_paths(ex, res, outs, per_path):
+            break
+    need = ["%s: %s" % (w, c) for w in ("read_exact_at", "read_exact_at_allocate") for c in ("read failed", "read beyond the size counter passed to the OS")]
+    return P.finish(ex, res, need)
